@@ -208,19 +208,18 @@ def assigned_targets(body):
             clean.append(body[i])
             i += 1
     clean = "".join(clean)
-    for stmt in re.split(r"[;{}]", clean):
-        s = stmt.strip()
-        m = ASSIGN_RE.search(s)
-        if m:
-            lhs = s[:m.start()].strip()
-            if lhs.startswith("let ") or lhs.startswith("let\t"):
-                continue  # new binding, scoped to the body
-            # `if let Some(x) = ..` / `while let` are bindings as well
-            if re.match(r"^(if|while|else\s+if)\s+let\b", lhs):
-                continue
-            lhs = re.sub(r"^(if|else|match)\b.*", "", lhs).strip() or lhs
-            lhs = lhs.lstrip("*( ").rstrip(") ")
-            targets.add(re.sub(r"\s+", "", lhs))
+    for m in ASSIGN_RE.finditer(clean):
+        before = clean[:m.start()]
+        # `=>` of a match arm is not an assignment
+        if clean[m.start():m.start() + 2] == "=>":
+            continue
+        # statement start: last delimiter before the operator
+        k = max(before.rfind(";"), before.rfind("{"), before.rfind("}"), before.rfind(","), before.rfind("=>") + 1)
+        seg = before[k + 1:].strip()
+        if re.match(r"^(let\b|if\s+let\b|while\s+let\b|else\s+if\s+let\b)", seg):
+            continue  # a new binding scoped to the body
+        mm = re.search(r"([A-Za-z_][A-Za-z0-9_\.\[\]\*]*)\s*$", seg)
+        targets.add(re.sub(r"\s+", "", mm.group(1)) if mm else seg)
     for m in re.finditer(r"&mut\s+([A-Za-z_][A-Za-z0-9_\.]*)", clean):
         targets.add(m.group(1))
     return targets
@@ -339,6 +338,15 @@ def make_scratch(prefix="verif-scratch-", log=None, cut=True, repo=None):
                 src = src.replace(gate, '#[cfg(all(not(kani), not(all(target_arch = "x86_64", target_feature = "bmi2"))))]\ncompile_error!')
                 open(pf, "w").write(src)
                 lines.append("E4 pext compile-time gate made conditional on not(kani): types/src/sliders/pext.rs")
+        # E5: the stacked #[kani::stub] attributes of the board-level harnesses exceed rustc's default
+        # macro recursion limit; raise it for Kani builds only (crate attribute, no code touched)
+        for f in ("cozy-chess/src/lib.rs", "types/src/lib.rs"):
+            path = os.path.join(d, f)
+            if not os.path.exists(path):
+                raise AnchorLost(f"E5: file {f} missing")
+            src = open(path).read()
+            open(path, "w").write('#![cfg_attr(kani, recursion_limit = "1024")]\n' + src)
+            lines.append(f"E5 recursion_limit (kani only): {f}")
         # E1
         for f, name, harness in INJECT:
             path = os.path.join(d, f)
